@@ -40,3 +40,10 @@ claim("C15", "exploration",
       "the documented wire layout (thorough adds pairwise field combinations).",
       "Fields are varied one (thorough: two) at a time, not in full product; layout reference written in /verif.",
       "DESIGN.md section 4, C15")
+claim("C16", "exploration",
+      "For every format (signed/unsigned x 8/12/16/24/32/64 bits x n_frac) every breakpoint of the piecewise-constant conversion "
+      "(all levels for 8/16-bit, boundary levels otherwise) with both float neighbours plus extremes is converted by the scalar, "
+      "array and deprecated converters and compared with exact integer arithmetic; monotonicity, range, one-step accuracy, "
+      "fix->float->fix identity, element-wise/shape agreement and two's-complement agreement of deprecated variants are checked.",
+      "Exhaustive over the breakpoint alphabet, not the float line; float64 inputs; inverse only for values a double holds exactly.",
+      "DESIGN.md section 4, C16")
